@@ -277,7 +277,7 @@ TRUSTED_BASE = [
     'message/decorator.go (pump + Close) and pubsub/sync/waitgroup.go (folded into the closer\'s select) and tied to them by schedule replay of the stamped hook log',
     'subscriber contract of the model: the channel closes after Close() was called or (ctx-honouring subscribers) after the Subscribe context ended; whether and when the subscriber\'s Close() RETURNS is an environment choice (it may block for ever); both locks of Close are modelled and RunHandlers calls compete for handlersLock; what RunHandlers starts and Stop concurrent with Close are outside the model (C10)',
     'the stamp discipline (acquire: stamp after; release: stamp before; close(closingInProgressCh) placed as late as the log allows; pump steps without a hook inserted as late as possible) and the Python mapper checks/c06.py',
-    'Router/CloseMonitor.v mon_run judges the implementation history; it is PROVED to accept every API trace of the repaired model (C06_acceptor_accepts_model) and to reject the D5/D12 witness traces; the mapping of hook stamps to API events is trusted',
+    'Router/CloseMonitor.v mon_run judges the implementation history; it is PROVED to accept every API trace of the repaired model, event by event and at rest (C06_model_accepted, C06_model_accepted_at_rest) and to reject the D5/D12 witness traces; the mapping of hook stamps to API events is trusted',
 ]
 ASSUMPTIONS = [
     '"every Close call returns" on the implementation is a watchdog (CloseTimeout + 4 s); "Close times out although nothing runs" is judged structurally (a subscriber that was never asked to close), never by wall-clock alone',
